@@ -54,6 +54,10 @@ def specs():
                              inputs=['[x,1]', '[1,x]', '[0,0]', '[x,']),
         'SingleListGrader': dict(make=lambda **k: M.SingleListGrader(subgrader=M.StringGrader(), **k), answers=['a', 'b'],
                                  expects=['a,b', 'c,d'], unusable='a,,b', inputs=['a,b', 'd,c', 'x,y', 'a,,b']),
+        'NestedSingleListGrader': dict(make=lambda **k: M.SingleListGrader(subgrader=M.SingleListGrader(subgrader=M.StringGrader(), delimiter=','),
+                                                                           delimiter=';', **k),
+                                       answers=[['a', 'b'], ['c', 'd']], expects=['a,b;c,d', 'e,f;g,h'], unusable='a,b;;c',
+                                       inputs=['c,d;b,a', 'e,f;g,h', 'x,y;z,w', 'a,b;;c']),
         'IntervalGrader': dict(make=lambda **k: M.IntervalGrader(**k), answers='[1,2]', expects=['[1,2]', '(3,4)'], unusable='[1,2,3]',
                                inputs=['[1,2]', '(3,4)', '[5,6]', '[1']),
         # multi-input graders: answers are always configured, expect plays no role
